@@ -24,6 +24,11 @@ class Budget(BaseException):
     pass
 
 
+def _hkey(forced):
+    """hashable form of a forced decision prefix (choose decisions carry a list of excluded values)"""
+    return tuple((fk[0], tuple(fk[1]), fk[2]) if fk[0] == "c" else tuple(fk) for fk in forced)
+
+
 class AssumeFail(BaseException):
     def __init__(self, f, pclen):
         self.f = f
@@ -140,7 +145,7 @@ class Path:
                 raise Abort()
             return
         if not b.v:
-            if (self.forced, b.f.uid) in self.ex._lenient:
+            if (_hkey(self.forced), b.f.uid) in self.ex._lenient:
                 # the solver's witness is an algebraic point that was rounded: keep the constraint in the
                 # path condition and go on with the approximate witness (the path is marked inexact)
                 self.exact = False
@@ -371,7 +376,7 @@ class Explorer:
                 self.stats["aborted"] += 1
             except AssumeFail as e:
                 core.CUR = None
-                key = (forced, e.f.uid)
+                key = (_hkey(forced), e.f.uid)
                 if key in self._assume_tried:
                     if key in self._lenient:
                         self.stats["aborted"] += 1
